@@ -24,6 +24,20 @@ type c16Info struct {
 	classified bool
 	temporary  bool
 	deadline   bool
+	// the outermost SMTP-annotated layer carries codes but no reply text
+	outerEmpty bool
+}
+
+// internal details that must never reach the client through a reply text
+var c16Details = []string{"secret-reason", "/var/lib/maddy", "plain failure", "connection refused", "lookup failed", "context "}
+
+func c16Contains(h, n string) bool {
+	for i := 0; i+len(n) <= len(h); i++ {
+		if h[i:i+len(n)] == n {
+			return true
+		}
+	}
+	return false
 }
 
 func c16SMTP(inner error, info *c16Info, k int) error {
@@ -38,6 +52,19 @@ func c16SMTP(inner error, info *c16Info, k int) error {
 	if nondetBool(fmt.Sprintf("ecUnset%d", k)) {
 		// a literal that does not set the enhanced code at all
 		ec = exterrors.EnhancedCode{}
+	}
+	info.outerEmpty = false
+	if verifParam("emptymsg", 0) == 1 {
+		// an annotation that sets the codes and leaves the reply text empty; the
+		// reason (internal detail) is given explicitly or is the inner error's text
+		switch nondetChoice(fmt.Sprintf("text%d", k), 3) {
+		case 1:
+			info.outerEmpty = true
+			return &exterrors.SMTPError{Code: code, EnhancedCode: ec, Reason: "secret-reason: open /var/lib/maddy/x.meta", Err: inner}
+		case 2:
+			info.outerEmpty = true
+			return &exterrors.SMTPError{Code: code, EnhancedCode: ec, Err: inner}
+		}
 	}
 	return &exterrors.SMTPError{Code: code, EnhancedCode: ec, Message: nondetString(fmt.Sprintf("msg%d", k), verifParam("msglen", 2)), Err: inner}
 }
@@ -132,6 +159,15 @@ func harness_C16_wrapErr() {
 			verifFail("C16.unannotated-discloses-detail")
 		}
 		verifCover("C16.unannotated")
+	}
+	if info.annotated && info.outerEmpty {
+		// an annotation without text: whatever the reply says, it is not the internal reason
+		for _, d := range c16Details {
+			if c16Contains(r.Message, d) {
+				verifFail("C16.annotation-without-text-discloses-detail")
+			}
+		}
+		verifCover("C16.annotation-without-text")
 	}
 	if mangle {
 		for i := 0; i < len(r.Message); i++ {
